@@ -150,6 +150,9 @@ CORPUS_QUERIES = [
     {"segs": [{"k": "desc", "sels": [{"t": "wild"}, {"t": "wild"}]}]},
     {"segs": [{"k": "desc", "sels": [{"t": "wild"}, {"t": "filter", "e": {"t": "rel", "q": {"segs": []}}}]}]},
     {"segs": [{"k": "child", "sels": [{"t": "filter", "e": {"t": "rel", "q": {"segs": []}}}, {"t": "wild"}]}]},
+    # ... including two FILTERS (what "one pass over the members for all the filters" would tie together)
+    {"segs": [{"k": "desc", "sels": [{"t": "filter", "e": {"t": "rel", "q": {"segs": []}}}, {"t": "filter", "e": {"t": "rel", "q": {"segs": []}}}]}]},
+    {"segs": [{"k": "child", "sels": [{"t": "filter", "e": {"t": "rel", "q": {"segs": []}}}, {"t": "filter", "e": {"t": "rel", "q": {"segs": []}}}]}]},
     # a single selector on the root: n! orderings for an object with n members
     {"segs": [{"k": "child", "sels": [{"t": "wild"}]}]},
     {"segs": [{"k": "child", "sels": [{"t": "filter", "e": {"t": "rel", "q": {"segs": []}}}]}]},
